@@ -41,7 +41,12 @@ def _mk(kind, Rc, Rx, roundtrip):
                     "diagonal kind must inherit affine_conditional_transformation")
         P = post_precision(w, h, px)                                    # [A,B,Dx,Dx]
         Sy4, _ = LM.sylvester(w, h.par["S"], h.par["ld"], px["S"], px["ld"], h.par["M"], P)
+        from .common import fresh_result, params_unchanged, snapshot as _snap
+        spx_, sc_ = _snap(p_x), _snap(h.obj)
         post = h.call("affine_conditional_transformation", p_x)        # REAL
+        fresh_result(w, "frame/result-is-a-new-object", post, p_x, h.obj)
+        params_unchanged(w, "frame/prior-unchanged", p_x, spx_, ("Sigma", "mu", "Lambda", "nu", "ln_beta", "ln_det_Sigma", "lnZ"))
+        params_unchanged(w, "frame/conditional-unchanged", h.obj, sc_, ("M", "b", "Sigma", "Lambda", "ln_det_Sigma"))
         wf_conditional(w, "result", post)
         Pinv = w.inv(P)
         L = h.par["L"]
